@@ -194,8 +194,8 @@ class Census:
                     return self._auto(s, "index bounded by %s < array length %s" % (_fmt(iv.bound), ops[0][1].get("int")))
                 if self.GX(b, s.bb, idx, iv):
                     return self._auto(s, "index compared before use")
-                if il is not None and self._induction_over_len(b, il):
-                    return self._auto(s, "index is the induction variable of a range bounded by a length")
+                if il is not None and self._induction_over_len(b, il, self._bounds_base(b, s.bb, ops[0]), s.bb):
+                    return self._auto(s, "index is the induction variable of a range bounded by the length of the same collection")
                 # constant index: the base's length was tested before / the base is a chunk of constant size
                 ci = self.const_of(b, idx)
                 if ci is not None:
@@ -203,8 +203,8 @@ class Census:
                     base = self._bounds_base(b, s.bb, ops[0])
                     if base is not None and self._caller_vector(b, base):
                         return self._auto(s, "index into the caller's argument vector (&[f32] parameter of a public function): not file data")
-                    if base is not None and self._len_guarded(b, s.bb, base):
-                        return self._auto(s, "constant index after a length test on the same slice")
+                    if base is not None and self._len_guarded(b, s.bb, base, need=ci + 1):
+                        return self._auto(s, "constant index after a length test on the same slice that leaves at least %d elements" % (ci + 1))
                     n = self._chunk_size(b, base)
                     if n is not None and ci < n:
                         return self._auto(s, "constant index %d into a chunk of constant size %d" % (ci, n))
@@ -247,12 +247,12 @@ class Census:
                         # constant bound: fine only if the base is at least that long: need a guard on the base length
                         if o[1].get("int", 0) == 0:
                             continue
-                        if bl is not None and self._len_guarded(b, s.bb, bl):
+                        if bl is not None and self._len_guarded(b, s.bb, bl, need=o[1].get("int", 0)):
                             continue
                         okall = False
                     elif arr_n is not None and v.bound <= arr_n:
                         why.append("%s <= %d = array length" % (nm, arr_n))
-                    elif l is not None and (self.GX(b, s.bb, o, v) or self._from_search(b, l)):
+                    elif l is not None and (self.GX(b, s.bb, o, v) or self._from_search(b, l, bl)):
                         why.append("%s guarded" % nm)
                     else:
                         okall = False
@@ -265,13 +265,13 @@ class Census:
             m = re.search(r"\[\w+; (\d+)\]", base_ty)
             if m and v.bound < int(m.group(1)):
                 return self._auto(s, "index bounded by %s < array length %s" % (_fmt(v.bound), m.group(1)))
-            if v.g or il is not None and (T.guarded_exact(b, s.bb, t["args"][1]) or self._from_search(b, il) or self._induction_over_len(b, il)):
+            if v.g or il is not None and (T.guarded_exact(b, s.bb, t["args"][1]) or self._from_search(b, il, bl) or self._induction_over_len(b, il, bl, s.bb)):
                 return self._auto(s, "index compared / searched / induction variable")
             ci = self.const_of(b, t["args"][1])
             if ci is not None:
                 s.const_index = ci
-                if bl is not None and self._len_guarded(b, s.bb, bl):
-                    return self._auto(s, "constant index after a length test on the base")
+                if bl is not None and self._len_guarded(b, s.bb, bl, need=ci + 1):
+                    return self._auto(s, "constant index after a length test on the base that leaves at least %d elements" % (ci + 1))
                 return self._open(s, "constant index %d into a collection whose length was not tested" % ci, v.taint)
             return self._open(s, "index %s may be out of bounds" % v, v.taint)
         if s.kind == "slicefn" and s.detail == "drain" and len(t["args"]) > 1 and "RangeFull" in t["arg_tys"][1]["s"]:
@@ -700,15 +700,84 @@ class Census:
                 return True
         return False
 
-    def _from_search(self, b, l):
+    _COLL_PT = ("iter", "iter_mut", "into_iter", "as_slice", "as_mut_slice", "deref", "deref_mut", "as_ref", "as_mut", "as_bytes", "enumerate",
+                "borrow", "borrow_mut", "chars", "bytes", "rev", "skip", "peekable", "by_ref", "clone", "to_vec", "unwrap", "branch", "expect")
+
+    def _coll_id(self, b, l):
+        """identity of the collection a local stands for: the roots it derives from (parameters, producing calls) and the fields read on the way"""
+        if l is None:
+            return None
+        fl = self.flow(b)
+        flds = set()
+        roots = set()
+        for a in fl.origins(l, passthrough=self._COLL_PT, fields=flds):
+            if a[0] == "arg":
+                roots.add(("arg", a[1]))
+            elif a[0] == "call" and last_seg(a[1]) not in self._COLL_PT:
+                roots.add(("call", a[2]))
+            elif a[0] == "agg":
+                roots.add(("agg", a[2]))
+        return (frozenset(roots), frozenset(x for x in flds if not x.startswith("as:")))
+
+    def _same_coll(self, b, l1, l2):
+        a, c = self._coll_id(b, l1), self._coll_id(b, l2)
+        if a is None or c is None or not a[0] or not c[0]:
+            return True            # identity not recovered: do not invent a difference
+        return bool(a[0] & c[0]) and a[1] == c[1]
+
+    def _len_equal(self, b, site_bb, l1, l2):
+        """len() of the two collections was compared for equality, and only the equal outcome reaches the site (assert_eq!(a.len(), b.len()),
+        `if a.len() != b.len() { return .. }`)"""
+        if site_bb is None:
+            return False
+        fl = self.flow(b)
+        cfg = self.taint.cfg(b)
+
+        def len_of(op):
+            l = F.op_local(op)
+            out = []
+            for a in fl.origins(l) if l is not None else []:
+                if a[0] == "call" and last_seg(a[1]) == "len" and a[3]["args"]:
+                    out.append(F.op_local(a[3]["args"][0]))
+            return [x for x in out if x is not None]
+        for ci, cb in enumerate(b["blocks"]):
+            tt = cb["term"]
+            if tt["k"] != "switch" or not cfg.dominates(ci, site_bb):
+                continue
+            for st in cb["stmts"]:
+                if st[0] == "assign" and st[2][0] == "binop" and st[2][1] in ("Eq", "Ne") and F.op_local(tt["discr"]) == st[1][0]:
+                    xs, ys = len_of(st[2][2]), len_of(st[2][3])
+                    if not xs or not ys:
+                        continue
+                    pair = (any(self._same_coll(b, x, l1) for x in xs) and any(self._same_coll(b, y, l2) for y in ys)) or \
+                           (any(self._same_coll(b, x, l2) for x in xs) and any(self._same_coll(b, y, l1) for y in ys))
+                    if not pair:
+                        continue
+                    arms = {a[0]: a[1] for a in tt["arms"]}
+                    false_t = arms.get(0, tt.get("otherwise"))
+                    on_false = false_t == site_bb or (false_t is not None and site_bb in cfg.reachable_from(false_t, avoid={ci}))
+                    true_t = [x for x in ({a[1] for a in tt["arms"]} | {tt.get("otherwise")}) if x != false_t and x is not None]
+                    on_true = any(x == site_bb or site_bb in cfg.reachable_from(x, avoid={ci}) for x in true_t)
+                    if on_true == on_false:
+                        continue
+                    if (st[2][1] == "Eq" and on_true) or (st[2][1] == "Ne" and on_false):
+                        return True
+        return False
+
+    def _from_search(self, b, l, base=None):
+        """the index was produced by a search in / an enumeration of the collection it is used on"""
         fl = self.flow(b)
         for a in fl.origins(l):
             if a[0] == "call" and last_seg(a[1]) in ("position", "rposition", "find", "iter_position", "enumerate"):
-                return True
+                if base is None:
+                    return True
+                recv = F.op_local(a[3]["args"][0]) if a[3]["args"] else None
+                if recv is None or self._same_coll(b, recv, base):
+                    return True
         return False
 
-    def _induction_over_len(self, b, l):
-        """l comes (through copies) out of Iterator::next on a Range whose end derives from len()/is a constant within bounds, or out of enumerate()"""
+    def _induction_over_len(self, b, l, base=None, site_bb=None):
+        """l comes (through copies) out of Iterator::next on a Range whose end derives from len() of the indexed collection, or out of enumerate() over it"""
         fl = self.flow(b)
         for a in fl.origins(l):
             if a[0] == "call" and last_seg(a[1]) == "next":
@@ -719,16 +788,31 @@ class Census:
                         if "end" in names:
                             eo = x[3][2][names.index("end")]
                             el = F.op_local(eo)
-                            if el is not None and any(y[0] == "call" and last_seg(y[1]) == "len" for y in fl.origins(el)):
-                                return True
+                            for y in fl.origins(el) if el is not None else []:
+                                if y[0] == "call" and last_seg(y[1]) == "len":
+                                    recv = F.op_local(y[3]["args"][0]) if y[3]["args"] else None
+                                    if base is None or recv is None or self._same_coll(b, recv, base) or self._len_equal(b, site_bb, recv, base):
+                                        return True
                     if x[0] == "call" and last_seg(x[1]) == "enumerate":
-                        return True
+                        recv = F.op_local(x[3]["args"][0]) if x[3]["args"] else None
+                        if base is None or recv is None or self._same_coll(b, recv, base) or self._len_equal(b, site_bb, recv, base):
+                            return True
         return False
 
-    def _len_guarded(self, b, site_bb, base_local):
-        """a comparison of len() of (something derived from the same root as) the base dominates the site"""
+    def _len_guarded(self, b, site_bb, base_local, need=None):
+        best = self._len_lb(b, site_bb, base_local, need is not None, 0)
+        if best is None:
+            return False
+        if need is None:
+            return True
+        return best >= need
+
+    def _len_lb(self, b, site_bb, base_local, numeric, depth):
+        """a test of len() of (something derived from the same root as) the base dominates the site AND decides whether the site is reached
+        (one outcome of the test leaves).  With `need`: the outcome that reaches the site implies len >= need (constant comparisons only)."""
         fl = self.flow(b)
         cfg = self.taint.cfg(b)
+        T = self.taint
         from flow import PASS_LAST
         pt = PASS_LAST + ("into_bytes", "into_boxed_slice", "data", "into_string")
         broots = set()
@@ -737,21 +821,111 @@ class Census:
                 broots.add(("arg", a[1]))
             elif a[0] == "call":
                 broots.add(("call", a[2]))
+        best = None
         for bi, t in F.calls(b):
-            if last_seg(F.callee_name(t)) in ("len", "is_empty", "starts_with", "ends_with") and cfg.dominates(bi, site_bb):
-                l = F.op_local(t["args"][0])
-                lr = set()
-                for a in fl.origins(l, passthrough=pt) if l is not None else []:
-                    if a[0] == "arg":
-                        lr.add(("arg", a[1]))
-                    elif a[0] == "call":
-                        lr.add(("call", a[2]))
-                if lr & broots:
-                    # its result feeds a comparison
-                    d = t["dest"][0]
-                    if self.taint.guarded(b, site_bb, d) or True:
-                        return True
-        return False
+            nm = last_seg(F.callee_name(t))
+            if nm not in ("len", "is_empty", "starts_with", "ends_with") or not cfg.dominates(bi, site_bb) or t.get("dest") is None:
+                continue
+            l = F.op_local(t["args"][0])
+            lr = set()
+            for a in fl.origins(l, passthrough=pt) if l is not None else []:
+                if a[0] == "arg":
+                    lr.add(("arg", a[1]))
+                elif a[0] == "call":
+                    lr.add(("call", a[2]))
+            if not (lr & broots):
+                continue
+            d = t["dest"][0]
+            # locals holding the result (copies)
+            res = {d}
+            for _ in range(3):
+                for i2, j2, st in F.stmts(b):
+                    if st[0] == "assign" and len(st[1]) == 1 and st[2][0] == "use" and F.op_local(st[2][1]) in res:
+                        res.add(st[1][0])
+            if nm in ("is_empty", "starts_with", "ends_with"):
+                # flag: switched on directly
+                for ci, cb in enumerate(b["blocks"]):
+                    tt = cb["term"]
+                    if tt["k"] == "switch" and F.op_local(tt["discr"]) in res and cfg.dominates(ci, site_bb) and T.separates(b, ci, site_bb):
+                        arms = {a[0]: a[1] for a in tt["arms"]}
+                        false_t = arms.get(0, tt.get("otherwise"))
+                        on_false = false_t == site_bb or site_bb in cfg.reachable_from(false_t, avoid={ci})
+                        if nm == "is_empty":
+                            lb = 1 if on_false else 0
+                        else:
+                            n = None
+                            if len(t["args"]) > 1:
+                                cb2 = F.const_bytes(t["args"][1]) if hasattr(F, "const_bytes") else None
+                                n = len(cb2) if cb2 is not None else None
+                                # `&[0xfe, 0xff]` coerced to a slice: the array type carries the length
+                                x = F.op_local(t["args"][1])
+                                for _ in range(4):
+                                    if n is not None or x is None:
+                                        break
+                                    mm = re.match(r"&(?:mut )?\[\w+; (\d+)\]$", b["locals"][x]["s"])
+                                    if mm:
+                                        n = int(mm.group(1))
+                                        break
+                                    ds = T.defs(b).get(x, [])
+                                    x = None
+                                    if len(ds) == 1 and ds[0][0] == "assign" and ds[0][2][0] in ("cast", "use"):
+                                        x = F.op_local(ds[0][2][2] if ds[0][2][0] == "cast" else ds[0][2][1])
+                            lb = (n if n is not None else 1) if not on_false else 0
+                        best = lb if best is None else max(best, lb)
+                continue
+            for ci, cb in enumerate(b["blocks"]):
+                tt = cb["term"]
+                if not cfg.dominates(ci, site_bb):
+                    continue
+                if tt["k"] == "switch" and F.op_local(tt["discr"]) in res:
+                    # `match v.len() { 2 => .., 1 => .. }`: in the arm for n (and no other) the length is n
+                    tgts = {}
+                    for val, tg in tt["arms"]:
+                        tgts.setdefault(tg, []).append(val)
+                    for tg, vals in tgts.items():
+                        if (tg == site_bb or site_bb in cfg.reachable_from(tg, avoid={ci})) and \
+                                not any(o != tg and o is not None and (o == site_bb or site_bb in cfg.reachable_from(o, avoid={ci})) for o in list(tgts) + [tt.get("otherwise")]):
+                            lb = min(vals)
+                            best = lb if best is None else max(best, lb)
+                for st in cb["stmts"]:
+                    if not (st[0] == "assign" and st[2][0] == "binop" and st[2][1] in ("Lt", "Le", "Gt", "Ge", "Eq", "Ne")):
+                        continue
+                    o1, o2 = st[2][2], st[2][3]
+                    side = 0 if F.op_local(o1) in res else (1 if F.op_local(o2) in res else None)
+                    if side is None:
+                        continue
+                    if tt["k"] == "assert":
+                        continue
+                    if tt["k"] != "switch" or F.op_local(tt["discr"]) != st[1][0] or not T.separates(b, ci, site_bb):
+                        continue
+                    other = o2 if side == 0 else o1
+                    k = self.const_of(b, other)
+                    op = st[2][1] if side == 0 else {"Lt": "Gt", "Le": "Ge", "Gt": "Lt", "Ge": "Le", "Eq": "Eq", "Ne": "Ne"}[st[2][1]]
+                    arms = {a[0]: a[1] for a in tt["arms"]}
+                    false_t = arms.get(0, tt.get("otherwise"))
+                    on_false = false_t == site_bb or (false_t is not None and site_bb in cfg.reachable_from(false_t, avoid={ci}))
+                    true_t = arms.get(1, tt.get("otherwise")) if 0 in arms else None
+                    on_true = not on_false
+                    if k is None:
+                        # compared with another length: a decision, but no number - unless the two are found equal and the other one is bounded
+                        if not numeric:
+                            best = 1 if best is None else max(best, 1)
+                        elif depth < 2 and ((op == "Eq" and on_true) or (op == "Ne" and not on_true)):
+                            ol = F.op_local(other)
+                            for a in fl.origins(ol) if ol is not None else []:
+                                if a[0] == "call" and last_seg(a[1]) == "len":
+                                    xl = F.op_local(a[3]["args"][0])
+                                    lb2 = self._len_lb(b, site_bb, xl, True, depth + 1) if xl is not None else None
+                                    if lb2 is not None:
+                                        best = lb2 if best is None else max(best, lb2)
+                        continue
+                    # len OP k holds on the true branch, its negation on the false branch
+                    if on_true:
+                        lb = {"Eq": k, "Ge": k, "Gt": k + 1}.get(op, 0)
+                    else:
+                        lb = {"Ne": k, "Lt": k, "Le": k + 1}.get(op, 0)
+                    best = lb if best is None else max(best, lb)
+        return best
 
 
 def _fmt(v):
